@@ -108,8 +108,16 @@ def match_known(prop: str, ob: Ob, known: dict) -> Optional[dict]:
     for k in known.get("known", []):
         if k.get("property") != prop:
             continue
-        if all(k.get(f) == getattr(ob, f) for f in ("rule", "func", "stmt", "detail") if f in k):
-            return k
+        if not all(k.get(f) == getattr(ob, f) for f in ("rule", "func", "stmt", "detail") if f in k):
+            continue
+        # `stmt_re`: the failing call site with its local variable names abstracted (a renamed loop variable is still the
+        # same finding; another call shape, function or callee is not)
+        if "stmt_re" in k:
+            import re
+
+            if not re.fullmatch(k["stmt_re"], ob.stmt):
+                continue
+        return k
     return None
 
 
